@@ -18,6 +18,7 @@ from __future__ import annotations
 
 import collections
 import datetime
+import functools
 import threading
 from typing import Optional
 
@@ -59,8 +60,48 @@ StudyResource = resources.StudyResource
 TrialResource = resources.TrialResource
 
 
+def _report_datastore_errors(servicer_cls):
+  """Maps datastore errors that escape an RPC to their gRPC status code.
+
+  Datastore calls raise `custom_errors` directly (e.g. NotFoundError for a
+  missing trial). In-process callers see those exceptions as they are, but a
+  gRPC server turns any unhandled exception into status UNKNOWN. When a real
+  ServicerContext is present, report them through `handle_exception` so that
+  remote clients get NOT_FOUND / ALREADY_EXISTS like local ones do.
+
+  Args:
+    servicer_cls: The servicer class whose public RPC methods to wrap.
+
+  Returns:
+    The same class.
+  """
+
+  def wrap(rpc):
+    @functools.wraps(rpc)
+    def wrapper(self, request, context=None):
+      try:
+        return rpc(self, request, context)
+      except (
+          custom_errors.NotFoundError,
+          custom_errors.AlreadyExistsError,
+          custom_errors.ImmutableStudyError,
+          custom_errors.ImmutableTrialError,
+      ) as e:
+        if context is None:
+          raise
+        grpc_util.handle_exception(e, context)
+
+    return wrapper
+
+  for name, attribute in list(vars(servicer_cls).items()):
+    if name[0].isupper() and callable(attribute):
+      setattr(servicer_cls, name, wrap(attribute))
+  return servicer_cls
+
+
 # TODO: remove context = None
 # TODO: remove context = None
+@_report_datastore_errors
 class VizierServicer(vizier_service_pb2_grpc.VizierServiceServicer):
   """Implements the GRPC functions outlined in vizier_service.proto."""
 
